@@ -169,7 +169,21 @@ fn mk_type(v: &Value) -> Result<LocalTimeType, Value> {
     let dst = geti(v, "dst") != 0;
     let des = to_bytes(getv(v, "des"));
     let off32 = i32::try_from(off).map_err(|_| json!({"arg": "offset does not fit i32"}))?;
-    LocalTimeType::new(off32, dst, if des.is_empty() { None } else { Some(&des) }).map_err(err)
+    // a refusal by the crate of a local time type that is only a component of the call's argument is an observation, not a
+    // plumbing failure: the trace specification decides whether the type had to be accepted
+    LocalTimeType::new(off32, dst, if des.is_empty() { None } else { Some(&des) }).map_err(|e| {
+        let k = err(e);
+        json!({"typeerr": k["err"], "t": {"off": off32, "des": des}})
+    })
+}
+
+/// plumbing failures are generator errors; a refused component type is passed on as it is
+fn arg_err(e: Value) -> Value {
+    if e.get("typeerr").is_some() {
+        e
+    } else {
+        json!({ "arg": e })
+    }
 }
 
 fn mk_ruleday(v: &Value) -> Result<RuleDay, Value> {
@@ -213,7 +227,7 @@ fn mk_zone_parts(a: &Value) -> Result<(Vec<Transition>, Vec<LocalTimeType>, Vec<
     }
     let mut ty = Vec::new();
     for t in getv(a, "ty").as_array().expect("ty") {
-        ty.push(mk_type(t).map_err(|e| json!({"arg": e}))?);
+        ty.push(mk_type(t).map_err(arg_err)?);
     }
     let mut lp = Vec::new();
     for l in getv(a, "lp").as_array().expect("lp") {
@@ -222,7 +236,7 @@ fn mk_zone_parts(a: &Value) -> Result<(Vec<Transition>, Vec<LocalTimeType>, Vec<
     // a rule that cannot be constructed means the zone cannot be constructed either: that refusal is the result
     let rule = mk_rule(getv(a, "rule")).map_err(|e| match e.get("err") {
         Some(k) => json!({"err": k, "ref": k}),
-        None => json!({"arg": e}),
+        None => arg_err(e),
     })?;
     Ok((tr, ty, lp, rule))
 }
@@ -415,7 +429,7 @@ fn exec_inner(op: &str, a: &Value, st: &mut State) -> Value {
                 "utc" => UtcDateTime::from_total_nanoseconds(n).map(|x| udt_json(&x)).map(ok).unwrap_or_else(err),
                 "local" => match mk_type(getv(a, "type")) {
                     Ok(t) => DateTime::from_total_nanoseconds_and_local(n, t).map(|x| dt_json(&x)).map(ok).unwrap_or_else(err),
-                    Err(e) => json!({ "arg": e }),
+                    Err(e) => arg_err(e),
                 },
                 "zone" => DateTime::from_total_nanoseconds(n, zone_ref(st)).map(|x| dt_json(&x)).map(ok).unwrap_or_else(err),
                 _ => json!({"arg": "via"}),
@@ -437,7 +451,7 @@ fn exec_inner(op: &str, a: &Value, st: &mut State) -> Value {
             let f = fields(a);
             match mk_type(getv(a, "type")) {
                 Ok(t) => DateTime::new(f.y, f.mo, f.d, f.h, f.mi, f.s, f.ns, t).map(|x| dt_json(&x)).map(ok).unwrap_or_else(err),
-                Err(e) => json!({ "arg": e }),
+                Err(e) => arg_err(e),
             }
         }
         "fromlocal" => {
@@ -445,7 +459,7 @@ fn exec_inner(op: &str, a: &Value, st: &mut State) -> Value {
             let ns = geti(a, "ns") as u32;
             match mk_type(getv(a, "type")) {
                 Ok(ty) => DateTime::from_timespec_and_local(t, ns, ty).map(|x| dt_json(&x)).map(ok).unwrap_or_else(err),
-                Err(e) => json!({ "arg": e }),
+                Err(e) => arg_err(e),
             }
         }
         "localtime" => {
@@ -493,7 +507,7 @@ fn exec_inner(op: &str, a: &Value, st: &mut State) -> Value {
                         Ok(src) => src.project(zone_ref(st)).map(|x| json!({"src": dt_json(&src), "dst": dt_json(&x)})).map(ok).unwrap_or_else(err),
                         Err(_) => json!({ "err": "Construct" }),
                     },
-                    Err(e) => json!({ "arg": e }),
+                    Err(e) => arg_err(e),
                 },
                 "utc" => match UtcDateTime::from_timespec(t, ns) {
                     Ok(src) => src.project(zone_ref(st)).map(|x| json!({"src": udt_json(&src), "dst": dt_json(&x)})).map(ok).unwrap_or_else(err),
@@ -519,7 +533,13 @@ fn exec_inner(op: &str, a: &Value, st: &mut State) -> Value {
                     "eq": (x == y) as u8,
                     "ord": match x.partial_cmp(&y) { Some(std::cmp::Ordering::Less) => -1, Some(std::cmp::Ordering::Equal) => 0, Some(std::cmp::Ordering::Greater) => 1, None => 2 },
                 })),
-                (Err(_), _) | (_, Err(_)) => json!({ "err": "Construct" }),
+                (Err(e), _) | (_, Err(e)) => {
+                    if e.get("typeerr").is_some() {
+                        e
+                    } else {
+                        json!({ "err": "Construct" })
+                    }
+                }
             }
         }
         // ---- C11 ----
@@ -527,11 +547,11 @@ fn exec_inner(op: &str, a: &Value, st: &mut State) -> Value {
         "rule" => {
             let std = match mk_type(getv(a, "std")) {
                 Ok(t) => t,
-                Err(e) => return json!({ "arg": e }),
+                Err(e) => return arg_err(e),
             };
             let dst = match mk_type(getv(a, "dst")) {
                 Ok(t) => t,
-                Err(e) => return json!({ "arg": e }),
+                Err(e) => return arg_err(e),
             };
             // a day that its own constructor refuses ends the call with that refusal (a client cannot go further)
             let sd = match mk_ruleday(getv(a, "sd")) {
